@@ -71,6 +71,55 @@ def _side_of(node, self_names, other_names):
     return 'both' if a and b else 'self' if a else 'other' if b else None
 
 
+def _center_selectors(fn):
+    """{(table, selection)}: which keys of self._atoms / self._bonds the function collects, for the comprehension and the loop spellings"""
+    out = set()
+
+    def items_of(it):
+        if isinstance(it, ast.Call) and isinstance(it.func, ast.Attribute) and it.func.attr == 'items' and isinstance(it.func.value, ast.Attribute) \
+                and src(it.func.value.value) == 'self':
+            return it.func.value.attr
+        return None
+
+    def kind(cond, v):
+        """classify a selection condition over the value variable v"""
+        if src(cond) == f'{v}.is_dynamic':
+            return 'value-dynamic'
+        if isinstance(cond, ast.Call) and src(cond.func) == 'any' and len(cond.args) == 1 and isinstance(cond.args[0], (ast.GeneratorExp, ast.ListComp)):
+            g = cond.args[0]
+            if len(g.generators) == 1 and not g.generators[0].ifs and src(g.generators[0].iter) == f'{v}.values()' \
+                    and src(g.elt) == f'{src(g.generators[0].target)}.is_dynamic':
+                return 'any-value-dynamic'
+        return 'other:' + src(cond)
+    for n in ast.walk(fn):
+        if isinstance(n, (ast.SetComp, ast.GeneratorExp, ast.ListComp)) and len(n.generators) == 1:
+            g = n.generators[0]
+            t = items_of(g.iter)
+            if t and isinstance(g.target, ast.Tuple) and len(g.target.elts) == 2 and src(n.elt) == src(g.target.elts[0]):
+                v = src(g.target.elts[1])
+                out.add((t, kind(g.ifs[0], v) if len(g.ifs) == 1 else 'other:%d conditions' % len(g.ifs)))
+        elif isinstance(n, ast.For):
+            t = items_of(n.iter)
+            if t and isinstance(n.target, ast.Tuple) and len(n.target.elts) == 2:
+                k, v = src(n.target.elts[0]), src(n.target.elts[1])
+                body = n.body
+                if len(body) == 1 and isinstance(body[0], ast.If) and not body[0].orelse and len(body[0].body) == 1 \
+                        and isinstance(body[0].body[0], ast.Expr) and src(body[0].body[0].value).endswith(f'.add({k})'):
+                    out.add((t, kind(body[0].test, v)))
+                elif len(body) == 1 and isinstance(body[0], ast.For) and src(body[0].iter) == f'{v}.values()' and not body[0].orelse:
+                    b = src(body[0].target)
+                    ib = body[0].body
+                    if len(ib) == 1 and isinstance(ib[0], ast.If) and src(ib[0].test) == f'{b}.is_dynamic' and not ib[0].orelse \
+                            and isinstance(ib[0].body[0], ast.Expr) and src(ib[0].body[0].value).endswith(f'.add({k})') \
+                            and (len(ib[0].body) == 1 or (len(ib[0].body) == 2 and isinstance(ib[0].body[1], ast.Break))):
+                        out.add((t, 'any-value-dynamic'))
+                    else:
+                        out.add((t, 'other:loop'))
+                else:
+                    out.add((t, 'other:loop'))
+    return out
+
+
 def rule_sides(ck, repo, R):
     ck.rule(R, 'in MoleculeContainer.compose values drawn from self flow only into the reactant slot (first argument / index 0) and values from '
                'other only into the product slot; ReactionContainer.compose composes (reagents + reactants) ^ products; is_dynamic is the '
@@ -176,8 +225,8 @@ def rule_sides(ck, repo, R):
     ck.decide(len(b) == 1 and src(b[0].value) in ('self.order != self.p_order', 'self.p_order != self.order'), R, 'bond:is_dynamic', src(b[0].value) if b else None,
               'DynamicBond.is_dynamic is no longer order != p_order', file=dbd.file, line=dbd.lineno)
     ca = repo.func('chython.containers.cgr:CGRContainer.center_atoms')
-    s = src(ca.node)
-    ck.decide('if a.is_dynamic' in s and 'any((bond.is_dynamic for bond in m_bond.values()))' in s and 'center.update' in s, R, 'center_atoms', None,
+    sel = _center_selectors(ca.node)
+    ck.decide(sel == {('_atoms', 'value-dynamic'), ('_bonds', 'any-value-dynamic')}, R, 'center_atoms', sorted(sel),
               'center_atoms is no longer the union of dynamic atoms and atoms with a dynamic bond', file=ca.file, line=ca.lineno)
     ck.floor(R, 16)
 
@@ -218,8 +267,12 @@ def rule_dynamic_tables(ck, repo, R):
     dr = module_literal(repo, SMI, 'dyn_radical_str')
     ck.decide(set(dr) == {(True, True), (True, False), (False, True)} and len(set(dr.values())) == 3, R, 'radical:table', dr, f'dyn_radical_str is {dr}', file=m.relpath, line=line)
     fa = repo.func(f'{SMI}:CGRSmiles._format_atom')
-    s = src(fa.node)
-    ck.decide('dyn_charge_str[atom.charge, atom.p_charge]' in s and 'dyn_radical_str[atom.is_radical, atom.p_is_radical]' in s, R, 'cgr:atom-lookup', None,
+    from .astutil import expand_locals, single_defs
+
+    def _keys(table):
+        only = set(single_defs(fa.node)) - {'atom'}
+        return {src(expand_locals(n.slice, fa.node, only=only)) for n in ast.walk(fa.node) if isinstance(n, ast.Subscript) and src(n.value) == table}
+    ck.decide(_keys('dyn_charge_str') == {'(atom.charge, atom.p_charge)'} and _keys('dyn_radical_str') == {'(atom.is_radical, atom.p_is_radical)'}, R, 'cgr:atom-lookup', None,
               'CGR atom token no longer looks up (reactant, product) pairs in that order', file=fa.file, line=fa.lineno)
     fb = repo.func(f'{SMI}:CGRSmiles._format_bond')
     ck.decide('dyn_order_str[bond.order, bond.p_order]' in src(fb.node), R, 'cgr:bond-lookup', None, 'CGR bond token no longer looks up (order, p_order)', file=fb.file, line=fb.lineno)
